@@ -376,9 +376,9 @@ func range_(tokens []Token) ([2]int, error) {
 				if utils.AsciiLower(token.Value) == "infinite" {
 					// negative infinity as a lower bound, positive infinity as an upper bound
 					if i == 0 {
-						values[i] = math.MinInt32
+						values[i] = math.MinInt
 					} else {
-						values[i] = math.MaxInt32
+						values[i] = math.MaxInt
 					}
 					continue
 				}
